@@ -289,7 +289,7 @@ def run(tier):
             v.violation(sig, "%s mode, %s = %r: %s" % (mode, p["position"], p["text"], detail), proj.witness_of(p["files"], mode, config=p.get("config")))
     # type-expression batches (depth <= 2 chains in quick, <= 3 in thorough) — ill-nested types are syntax faults
     types = rg.chains(2 if tier == "quick" else 3)
-    for _ in range(100 if tier == "quick" else 2000):
+    for _ in range(100 if tier == "quick" else 12000):
         types.append(rg.random_type(rnd, rnd.randint(3, 6)))
     types = list(enumerate(types))
     tjobs = []
@@ -316,7 +316,7 @@ def run(tier):
                 continue
             seen.add(sig)
             v.violation(sig, "%s mode: %s" % (job[2], detail), proj.witness_of(c05.build_batch(job[1][:1]), job[2], extra={"note": "first type of the batch shown; see detail line"}))
-    ijobs = [(cli, i, common.seed() * 1009 + i) for i in range(24 if tier == "quick" else 300)]
+    ijobs = [(cli, i, common.seed() * 1009 + i) for i in range(24 if tier == "quick" else 1500)]
     for (job, r) in zip(ijobs, common.pmap(run_inplace, ijobs)):
         v.case(("in-place", job[2]), nontrivial=True)
         v.count("in_place_regeneration_histories")
